@@ -664,6 +664,14 @@ impl<'a> Elab<'a> {
             let active = nt.cfg.iter().all(|p| p.eval(&self.feats));
             self.note_cfg(&nt.cfg, active);
             self.active_nt.push(active);
+            if active {
+                for a in &nt.alts {
+                    if !a.cfg.is_empty() {
+                        let on = a.cfg.iter().all(|p| p.eval(&self.feats));
+                        self.note_cfg(&a.cfg, on);
+                    }
+                }
+            }
             if !active || !nt.params.is_empty() {
                 continue;
             }
